@@ -190,3 +190,21 @@ Fixpoint tcheck_steps (v : cvariant) (s : tstate) (steps : list tobs) (n : N) : 
 Definition tcheck_case (c : tcase) : list (N * N) :=
   (match tc_variant c with Some v => tcheck_steps v (tinit (tc_outcomes c)) (tc_steps c) 0%N | None => [] end)
   ++ (if forallb (fun o => Nat.leb (to_inflight o) 1) (tc_steps c) then [] else [(0%N, 2%N)]).
+
+(* ------------------------------------------------------------------ the key suffix of every query type *)
+(* obs = for qtype start, start+1, ...: the bytes the production cacheKey put after the canonical name, packed
+   into one number (1, then the bytes, base 256).  Returns the query types whose suffix is not the model's. *)
+Definition pack_bytes (l : bytes) : N := fold_left (fun a b => (a * 256 + b)%N) l 1%N.
+Fixpoint ktable_mismatches (obs : list N) (q : N) : list N :=
+  match obs with
+  | [] => []
+  | o :: rest => (if N.eqb o (pack_bytes (digits q)) then [] else [q]) ++ ktable_mismatches rest (q + 1)%N
+  end.
+
+(* the same, for a chunk of observations packed into one number: 48 bits per query type, lowest field first *)
+Fixpoint kchunk_mismatches (count : nat) (big : N) (q : N) : list N :=
+  match count with
+  | O => []
+  | S c => (if N.eqb (N.land big 0xFFFFFFFFFFFF) (pack_bytes (digits q)) then [] else [q])
+           ++ kchunk_mismatches c (N.shiftr big 48) (q + 1)%N
+  end.
